@@ -59,8 +59,8 @@ def gen_cases(rng, tier):
         model["api_variant"] = "refit"      # the state behind the functions is refined between two writes of the same objects
       if model["api_variant"] == "int_cutoff":
         model["tab"]["cutoff"] = float(rng.randint(1, 20))
-      if i % 5 in (1, 2, 3):
-        model["api_results"] = [None, "numpy0d", "numpy0d_int", "numpy0d_cached"][i % 5]   # functions returning 0-d numpy arrays (fresh / integer-typed / memoised)
+      if i % 5:
+        model["api_results"] = [None, "numpy0d", "numpy0d_int", "numpy0d_cached", "falsy_callable"][i % 5]   # functions returning 0-d numpy arrays (fresh / integer-typed / memoised)
     cases.append({"route": route, "model": model, "style": rng.randrange(1 << 30), "reject": reject})
   # a discontinuity of V exactly on a grid point of a grid whose step is NOT a dyadic fraction (r accumulates
   # rounding there): energy and force of that row must still come from one and the same branch
